@@ -45,6 +45,12 @@ pub fn c20(an: &Analysis<'_>, t: &mut Tally, idx: u64) {
     let mut delivered: HashMap<String, Vec<usize>> = HashMap::new();
     for r in &out.evs {
         if let Ev::Sc(ScEv::Log(m)) = &r.ev {
+            if m.contains("OUT:") {
+                // emitted outside of any scenario span: broadcast to the running scenarios, not
+                // governed by the attribution clauses (its position is C02's / C03's business)
+                t.count("c20.outside_span_logs_delivered", 1);
+                continue;
+            }
             match log_id(m) {
                 Some(id) => delivered.entry(id).or_default().push(r.idx),
                 None => viol("log:unknown-message", format!("Log event with a message nobody emitted: {m:?}"), t),
